@@ -1709,7 +1709,7 @@ class CHECK(Check):
                   "predictions, signed_weights travel with their rows; ErrorRate / BoundedGroupLoss likewise; a column-wise "
                   "injective relabelling renames exactly the index entries (Perm of the entry lists, arbitrary metric) and leaves "
                   "all aggregates and fairness metrics unchanged when control labels are kept. Containers and index labels: "
-                  "Model/Container.lean + Generated/ContainerSites.lean (37 (entry point, argument, sink) sites with the "
+                  "Model/Container.lean + Generated/ContainerSites.lean (40 (entry point, argument, sink) sites with the "
                   "conversion each argument passes through before a label-aligning pandas operation); containers_irrelevant: if "
                   "every argument passes a label-dropping conversion the frame, hence any result, depends on the payloads only, "
                   "for all kinds and labels; positional_pairing; lifted_sites_drop_labels (decide over the generated table; "
